@@ -237,6 +237,35 @@ Section EndToEnd.
   Qed.
 End EndToEnd.
 
+(* ---------- Reference.Validate ---------- *)
+
+Section Validate.
+  Variable avail : str -> bool.
+  Variable ip6 : str -> bool.
+  Notation vr := (go_valid_registry ip6).
+
+  (* every reference ParseReference returns passes Validate ... *)
+  Theorem parse_validate s r : parse avail vr s = Some r -> validate avail vr r = true.
+  Proof.
+    intro H. destruct (parse_wf avail vr s r H) as ([Hr _] & Hp & Hf). unfold validate. rewrite Hr, Hp. simpl.
+    unfold validate_reference. destruct (r_reference r) as [|x t] eqn:E; [reflexivity|].
+    destruct Hf as [Hf|[Hf|Hf]]; [discriminate | |].
+    - rewrite (tag_no_colon _ Hf). exact Hf.
+    - rewrite (digest_has_colon avail _ Hf). exact Hf.
+  Qed.
+
+  (* ... and every Reference value that passes Validate (however it was built) with a non-empty
+     repository survives String() / ParseReference unchanged *)
+  Theorem validate_roundtrip r :
+    validate avail vr r = true -> parse avail vr (format avail r) = Some r.
+  Proof.
+    unfold validate. intro H. apply andb_true_iff in H as [H Hf]. apply andb_true_iff in H as [Hr Hp].
+    apply format_parse. split; [now apply go_valid_registry_ok|]. split; [exact Hp|].
+    unfold validate_reference in Hf. destruct (r_reference r) as [|x t]; [now left|]. right.
+    destruct (contains c_colon (x :: t)); [now right | now left].
+  Qed.
+End Validate.
+
 (* ---------- the reg-name [":" port] registries, characterised ---------- *)
 
 Definition hostcb (c : N) : bool := negb (c =? c_pct) && ((128 <=? c) || host_plain c).
